@@ -1,0 +1,43 @@
+//go:build verif
+
+package storage
+
+import "sort"
+
+// Verification hooks (build tag "verif" only; add-only; not part of the library's API).
+
+// VerifHoldSweeps makes every Sweep (explicit, ticker-driven, or spawned by Set) wait until VerifReleaseSweeps.
+func (f *FifoMapCache[K, V]) VerifHoldSweeps() { f.sweepingMux.Lock() }
+
+// VerifReleaseSweeps lets waiting sweeps proceed.
+func (f *FifoMapCache[K, V]) VerifReleaseSweeps() { f.sweepingMux.Unlock() }
+
+// VerifPartition is a snapshot of one partition.
+type VerifPartition[K comparable, V any] struct {
+	Id      uint64
+	Entries map[K]V
+}
+
+// VerifLayout returns the partitions in id order with a copy of their contents.
+func (f *FifoMapCache[K, V]) VerifLayout() []VerifPartition[K, V] {
+	f.currentPartitionMux.RLock()
+	defer f.currentPartitionMux.RUnlock()
+	st := f.partitions
+	st.mux.RLock()
+	entries := make([]*stackEntry[*SafeMap[K, V]], len(st.stack.entries))
+	copy(entries, st.stack.entries)
+	st.mux.RUnlock()
+	sort.Slice(entries, func(i, j int) bool { return entries[i].id < entries[j].id })
+	out := make([]VerifPartition[K, V], 0, len(entries))
+	for _, e := range entries {
+		out = append(out, VerifPartition[K, V]{Id: e.id, Entries: e.entry.CopyToMap()})
+	}
+	return out
+}
+
+// VerifGeometry returns maxPartitions, partitionCapacity and the current partition id.
+func (f *FifoMapCache[K, V]) VerifGeometry() (int, int, uint64) {
+	f.currentPartitionMux.RLock()
+	defer f.currentPartitionMux.RUnlock()
+	return f.maxPartitions, f.partitionCapacity, f.currentPartitionId
+}
